@@ -29,7 +29,7 @@ def _setup_repo_path():
 
 _setup_repo_path()
 
-from .core import FORMAT, ChildDied, run_isolated  # noqa: E402
+from .core import FORMAT, ChildDied, classify_hang, run_isolated  # noqa: E402
 from .core import execute as execute_inprocess  # noqa: E402
 from .core import execute_isolated as execute  # noqa: E402
 from .minimise import minimise  # noqa: E402
@@ -110,13 +110,22 @@ def _run_chunk(pid, tier, base_seed, indices, known_keys, want_digests):
         d["sample"] = world.sample(plan) if r.nontrivial else None
         return d
 
+    cap = getattr(world, "WATCHDOG_S", RUN_WALL_CAP)
     for i in indices:
         seed = base_seed * SEED_MUL + i
         t_run = time.time()
         try:
-            d = run_isolated(lambda: one(seed), RUN_WALL_CAP)
+            d = run_isolated(lambda: one(seed), cap)
         except ChildDied as e:
-            agg["harness_errors"].append({"seed": seed, "error": str(e)})
+            who, where = classify_hang(getattr(e, "hang_traceback", ""))
+            if who == "library":
+                # the code under test stopped making progress (e.g. a resampling loop that never terminates)
+                agg["violations"].append({"seed": seed, "index": i, "hang": True, "violation": {
+                    "class": f"{pid}/hang", "key": f"{pid}/hang:{where}", "step": None,
+                    "detail": f"the run made no progress for {cap}s inside the library ({where}); stack (innermost first):\n"
+                              + getattr(e, "hang_traceback", "")[:1500]}})
+            else:
+                agg["harness_errors"].append({"seed": seed, "error": str(e)})
             continue
         dt = time.time() - t_run
         if dt > agg["slowest"][0]:
@@ -179,8 +188,13 @@ def do_replay(pid, path):
     known_keys = known_patterns(findings)
     if doc.get("violation") and any(doc["violation"]["key"] == k for k in known_keys):
         known_keys = []  # replaying a known finding's own reproducer: show it
-    r = execute(world, doc["plan"], known_keys, keep_events=True)
-    for e in r.events:
+    r = execute(world, doc["plan"], known_keys, keep_events=True, timeout=RUN_WALL_CAP)
+    want_v = doc.get("violation") or {}
+    if r.harness_error and want_v.get("class", "").endswith("/hang") and "died without a result" in r.harness_error:
+        print(f"replay: the run again makes no progress for {RUN_WALL_CAP}s ({want_v.get('key')})")
+        print(f"VIOLATION property={pid} replay={path}")
+        return 1
+    for e in r.events or []:
         print("  event", e)
     if r.harness_error:
         print("HARNESS-ERROR during replay:\n" + r.harness_error)
@@ -328,6 +342,7 @@ def run_check(pid, tier, base_seed, n_runs=None, budget_s=None, workers=None):
         exit_code = 2
         for he in agg["harness_errors"][:3]:
             print(f"HARNESS-ERROR seed={he['seed']}\n{he['error']}")
+    had_nondeterminism = "MISMATCH" in json.dumps(det_result)
 
     # 4. violations -> minimise, replay file, VIOLATION line
     viols = out_violations + sorted(agg["violations"], key=lambda v: v["index"])
@@ -337,6 +352,13 @@ def run_check(pid, tier, base_seed, n_runs=None, budget_s=None, workers=None):
         if key in reported or len(reported) >= 3:
             continue
         plan = v.get("plan") or world.gen_plan(v["seed"], tier)
+        if v.get("hang"):
+            # every re-execution would cost a watchdog period: the replay file keeps the unminimised plan
+            path = write_replay(pid, v["seed"], plan, v["violation"], None, len(plan["steps"]), 0)
+            reported[key] = path
+            print(f"violation seed={v['seed']} key={key} detail={v['violation']['detail'][:300]}")
+            print(f"VIOLATION property={pid} replay={path}")
+            continue
         try:
             mplan, mviol, n_exec = minimise(world, plan, v["violation"], known_keys)
             r = execute(world, mplan, known_keys)
@@ -351,7 +373,10 @@ def run_check(pid, tier, base_seed, n_runs=None, budget_s=None, workers=None):
         print(f"violation seed={v['seed']} key={key} step={mviol.get('step')} detail={mviol.get('detail', '')[:300]}")
         print(f"VIOLATION property={pid} replay={path}")
     if reported:
-        exit_code = 1 if exit_code == 0 else exit_code
+        # a violation that was found, minimised and written as a replay file is the verdict; harness errors seen in
+        # the same batch (e.g. other runs of a mutant that hang, or digests that differ because the changed code
+        # keeps process-global state) are printed above but do not turn the verdict into "harness error"
+        exit_code = 1
 
     # 5. evidence
     wall = time.time() - t0
